@@ -26,7 +26,7 @@ open SaModel SaModel.Build SaModel.Spec
 /-- **Presentation independence.** Two values with the same documented meaning at the builder's field, both
 accepted: the builder ends up with the same logical rows.  State hypotheses: the WEAK state invariant `WFH`, `NoDictKey`
 (holds of every builder `build_builder` constructs) and `Det` (no row is undetermined) — all three hold of every strictly
-well-formed state (`WFH_of_WFB`, `Det_of_WFB`; so the former hypotheses `WFB b`, `Safe b` imply them) and of the root of
+well-formed state (`WFH_of_WFB`, `Det_of_WFB`; so the stronger `WFB b`, `Safe b` imply them) and of the root of
 `to_marrow` after every record, for EVERY schema: no `Safe`. -/
 theorem presentation_independent (ext : Ext) (x y : SVal) (b bx bY : B) (dt : DataType) (n : Bool) (md : Metadata)
     (hx : noRaw x = true) (hy : noRaw y = true) (hwf : WFH b) (hnd : NoDictKey b) (hdet : Det b)
